@@ -55,6 +55,7 @@ def run(tier):
     rule_R1(res, prog, cg, c)
     rule_R2(res, prog, cg, c)
     rule_R3(res, prog, cg, c)
+    rule_R4(res, prog, cg, c)
     return res.finish()
 
 
@@ -306,3 +307,116 @@ def rule_R3(res, prog, cg, c):
             dominated_success(res, PROP, "C02.R3", eng, tr, f, zero_possible, "cmp", {"zero"},
                               "crypto_verify_16(...) == 0")
     res.floor("C02.R3", 5)
+
+
+# ---------------------------------------------------------------------------
+# R4: binding completeness of AAD / nonce / MAC input (source sets)
+AEAD_ARGS = {
+    # primitive: {role: argument index}
+    "psAesReadyGCM": {"nonce": 1, "aad": 2},
+    "psChacha20Poly1305IetfEncrypt": {"nonce": 3, "aad": 4},
+    "psChacha20Poly1305IetfDecrypt": {"nonce": 3, "aad": 4},
+}
+# what each input must depend on (RFC 5246 6.2.3.3, RFC 5288 3, RFC 6347 4.1.2.1, RFC 8446 5.2/5.3); P<i> = the
+# i-th parameter of the cipher callback (ssl, in, out, len)
+REQ = {
+    ("open", "tls12"): {"aad": [("F", "sslSec", "remSeq"), ("F", "sslRec", "type"), ("F", "ssl", "activeVersion"), ("P", 3)],
+                        "aad_dtls": [("F", "sslRec", "epoch"), ("F", "sslRec", "rsn")],
+                        "nonce": [("F", "sslSec", "readIV"), ("P", 1)]},
+    ("seal", "tls12"): {"aad": [("F", "sslSec", "seq"), ("F", "ssl", "outRecType"), ("F", "ssl", "activeVersion"), ("P", 3)],
+                        "aad_dtls": [("F", "ssl", "epoch"), ("F", "ssl", "rsn")],
+                        "nonce": [("F", "sslSec", "writeIV"), ("F", "sslSec", "seq")]},
+    ("open", "tls13"): {"aad": [("F", "sslRec", "len")],
+                        "nonce": [("F", "sslSec", "remSeq"), ("F", "sslSec", "tls13ReadIv")]},
+    ("seal", "tls13"): {"aad": [("F", "ssl", "outRecLen")],
+                        "nonce": [("F", "sslSec", "seq"), ("F", "sslSec", "tls13WriteIv")]},
+}
+# roots of the opposite direction must not flow into an input (cross-direction reflection)
+FORBID = {
+    "open": [("F", "sslSec", "seq"), ("F", "sslSec", "writeIV"), ("F", "sslSec", "tls13WriteIv")],
+    "seal": [("F", "sslSec", "remSeq"), ("F", "sslSec", "readIV"), ("F", "sslSec", "tls13ReadIv")],
+}
+
+
+def rule_R4(res, prog, cg, c):
+    from sa.bufsrc import BufSrc
+    res.rule("C02.R4", "binding completeness: the AAD / nonce handed to every AEAD primitive in the record layer and the "
+                       "HMAC input depend on the sequence number, record type, version, length (per RFC) and on no "
+                       "state of the opposite direction")
+    bs = BufSrc(prog, cg)
+    g, rows = tables.cipher_rows(prog)
+    fl = tables.crypto_flags(prog)
+    cs = tables.cs_types(prog)
+    dtls = prog.const("USE_DTLS", required=False) is not None or "USE_DTLS" in prog.macros
+    seen = set()
+    n = 0
+    for r in rows:
+        flags = r["flags"] or 0
+        if not flags & (fl["GCM"] | fl["CHACHA"]):
+            continue
+        ver = "tls13" if r["type"] == cs.get("TLS13") else "tls12"
+        for direction, slot in (("open", "decrypt"), ("seal", "encrypt")):
+            fname = r[slot]
+            if not isinstance(fname, str) or (fname, direction) in seen:
+                continue
+            seen.add((fname, direction))
+            fn = prog.fn(fname)
+            req = REQ[(direction, ver)]
+            found = 0
+            for b, ln, call in fn.calls():
+                spec = AEAD_ARGS.get(call.get("fn"))
+                if not spec:
+                    continue
+                for role, idx in spec.items():
+                    if idx >= len(call.get("a", [])):
+                        continue
+                    arg = call["a"][idx]
+                    a0 = strip(arg)
+                    if a0 is not None and a0.get("k") == "int" and a0["v"] == 0:
+                        continue        # no AAD in this (draft-version) arm
+                    roots = bs.arg_roots(fn, arg)
+                    need = list(req[role])
+                    if role == "aad" and dtls and "aad_dtls" in req:
+                        need += req["aad_dtls"]
+                    missing = [x for x in need if x not in roots]
+                    crossed = [x for x in FORBID[direction] if x in roots]
+                    found += 1
+                    n += 1
+                    f = None
+                    if missing or crossed:
+                        what = []
+                        if missing:
+                            what.append("does not depend on %s" % ", ".join(".".join(map(str, m[1:])) if m[0] == "F" else "parameter %d" % m[1] for m in missing))
+                        if crossed:
+                            what.append("depends on opposite-direction state %s" % ", ".join(".".join(m[1:]) for m in crossed))
+                        f = Finding(PROP, "C02.R4", fname, "%s %s: %s" % (direction, role, what[0].split(" on ")[0] + " on " + what[0].split(" on ")[1]),
+                                    "the %s passed to %s in %s %s" % (role, call.get("fn"), fname, "; ".join(what)),
+                                    file=fn.relfile, line=ln,
+                                    detail={"roots": sorted(map(str, roots))})
+                    res.instance("C02.R4", "%s (%s %s) %s argument of %s at line %s" % (
+                        fname, ver, direction, role, call.get("fn"), ln), not (missing or crossed), finding=f)
+            if not found:
+                raise AnalysisBroken("C02.R4: %s no longer calls a known AEAD primitive" % fname)
+    # HMAC input
+    for hname in ("tlsHMACSha1", "tlsHMACSha2"):
+        for fn in prog.by_name.get(hname, []):
+            roots = set()
+            for b, ln, call in fn.calls():
+                nm = call.get("fn") or ""
+                if nm.startswith("psHmac") and ("Update" in nm or "Tls" in nm or "Init" in nm):
+                    for a in call.get("a", []):
+                        roots |= bs.arg_roots(fn, a)
+            need = [("F", "sslSec", "seq"), ("F", "sslSec", "remSeq"), ("F", "sslSec", "readMAC"),
+                    ("F", "sslSec", "writeMAC"), ("F", "ssl", "activeVersion"), ("P", 2), ("P", 3), ("P", 4)]
+            if dtls:
+                need += [("F", "sslRec", "epoch"), ("F", "sslRec", "rsn"), ("F", "ssl", "epoch"), ("F", "ssl", "rsn")]
+            missing = [x for x in need if x not in roots]
+            n += 1
+            f = None
+            if missing:
+                f = Finding(PROP, "C02.R4", hname, "HMAC input incomplete",
+                            "the record MAC input in %s does not depend on %s" % (hname, missing),
+                            file=fn.relfile, line=fn.line)
+            res.instance("C02.R4", "%s HMAC input covers seq, type, version, length, data, key" % hname,
+                         not missing, finding=f)
+    res.floor("C02.R4", 8)
